@@ -1026,6 +1026,8 @@ class EntryGraph:
                 return ('b', not v[1])
             if v[0] == 'atom':
                 return ('atom', v[1], not v[2])
+            if v[0] == 'bs':
+                return ('bs', v[1], not v[2])
             return None
         if k == 'agg' and rv['kind'] == 'adt' and rv.get('is_enum'):
             pay = tuple(self._payload_val(self._val_op(env, cid, o)) for o in rv['ops'])
@@ -1060,7 +1062,12 @@ class EntryGraph:
                 for x, y in ((a, b), (b, a)):
                     if x[0] == 'dof' and y[0] == 'i':
                         return ('dofcmp', x[1], y[1], rv['op'] == 'Eq', x[2] if len(x) > 2 else 0)
-            return None
+        if k == 'bin' and rv['op'] in ('Eq', 'Ne', 'Lt', 'Le', 'Gt', 'Ge') and self._cur is not None:
+            # an otherwise unknown comparison result: remember WHERE it was computed, so that a later test of the value (after it
+            # went through `&&`/`||` temporaries, a local, a helper's parameter) is still recognised as a test of this comparison
+            site = (cid,) + self._cur
+            env.pop(('A', site), None)
+            return ('bs', site, False)
         if k == 'ref':
             pl = rv['pl']
             proj = pl.get('p', [])
@@ -1117,12 +1124,15 @@ class EntryGraph:
         for k in [k for k in env if k[0] == cid]:
             del env[k]
 
+    _cur = None
+
     def _step(self, cid, bb, env, sid):
         ctx = self.ctxs[cid]
         body = ctx.body
         blk = body['blocks'][bb]
-        for s in blk['st']:
+        for si, s in enumerate(blk['st']):
             k = s['s']
+            self._cur = (bb, si)
             if k == 'assign':
                 pl = s['pl']
                 if not pl.get('p'):
@@ -1153,6 +1163,7 @@ class EntryGraph:
                 env.pop((cid, s['l']), None)
         t = blk['term']
         k = t['t']
+        self._cur = (bb, len(blk['st']))
         out = []
         if k in ('goto', 'drop'):
             out.append((cid, t['to'], env, None))
@@ -1184,6 +1195,21 @@ class EntryGraph:
                         if a == iv:
                             tgt = b
                     out.append((cid, tgt, e2, iv))
+            elif v is not None and v[0] == 'bs':
+                site, neg = v[1], v[2]
+                for truth in (False, True):
+                    siteval = (not truth) if neg else truth
+                    cur = env.get(('A', site))
+                    if cur is not None and cur[1] != siteval:
+                        continue
+                    e2 = dict(env)
+                    e2[('A', site)] = ('b', siteval)
+                    iv = 1 if truth else 0
+                    tgt = t['otherwise']
+                    for a, b in arms:
+                        if a == iv:
+                            tgt = b
+                    out.append((cid, tgt, e2, ('bs', iv, site, neg)))
             elif v is not None and v[0] == 'dofcmp':
                 cell, kk, is_eq, nvar = v[1], v[2], v[3], v[4]
                 for truth in (False, True):
@@ -1227,7 +1253,7 @@ class EntryGraph:
                 else:
                     dest = pt['dest']
                     if not dest.get('p'):
-                        if v0 is not None and v0[0] in ('b', 't', 'atom', 's'):
+                        if v0 is not None and v0[0] in ('b', 't', 'atom', 's', 'bs'):
                             env[(p.id, dest['l'])] = v0
                         else:
                             env.pop((p.id, dest['l']), None)
@@ -1267,6 +1293,10 @@ class EntryGraph:
                 dest = t['dest']
                 if not dest.get('p'):
                     env.pop((cid, dest['l']), None)
+                    if body['locals'][dest['l']] == 'bool':
+                        site = (cid, bb, len(blk['st']))
+                        env.pop(('A', site), None)
+                        env[(cid, dest['l'])] = ('bs', site, False)
                 if t['to'] >= 0:
                     out.append((cid, t['to'], env, 'ret'))
                 else:
@@ -1276,6 +1306,15 @@ class EntryGraph:
         else:
             self.exits.append((sid, 'fail', k))
         return out
+
+    def site_term(self, site):
+        """term of the boolean computed at a ('bs') site: (ctx id, bb, statement index | len(st) for the call terminator)"""
+        cid, bb, idx = site
+        ctx = self.ctxs[cid]
+        blk = ctx.body['blocks'][bb]
+        if idx < len(blk['st']):
+            return self.term_rvalue(ctx, bb, idx, blk['st'][idx]['rv'], 0)
+        return self.leaf_term(ctx, bb)
 
     # ---------------- queries ----------------
     def reachable_nodes(self):
